@@ -417,6 +417,7 @@ class Model:
             if pin in pin_mapping:
                 n = self.pin_dic.pop(pin)
                 self.pin_dic[pin_mapping[pin]] = n
+        self.update_pins()
         return self
 
     def update_params(self, update_dic: Dict[str, Any]) -> None:
